@@ -175,6 +175,9 @@ func (m *TlvModel) GenReadFrom(buf *bytes.Buffer) error {
 				l := enc.TLNum(0)
 				{{call .GenTlvNumberDecode "typ"}}
 				{{call .GenTlvNumberDecode "l"}}
+				if l > enc.TLNum(reader.Length()-reader.Pos()) {
+					return nil, enc.ErrFailToParse{TypeNum: typ, Err: io.ErrUnexpectedEOF}
+				}
 
 				err = nil
 
